@@ -256,51 +256,60 @@ theorem C15_resample_within_one_step (n : Nat) (t0 t1 step : Rat) (target : Nat)
 
 /-! ### compute_spectrogram -/
 
-/-- (repaired code, fix C15-1) the spectrogram's time coordinates are exactly
-    `first + k·step` for the advertised step, whenever the window is no longer than the audio -/
+/-- (repaired code, fixes C15-1 and C15-3) the spectrogram's time coordinates are exactly
+    `first + k·step` for the advertised step — for every window length, also one longer than the
+    audio (the advertised step is computed from the window that is actually used) -/
 theorem C15_stft_step_truthful (len : Nat) (t0 step w h : Rat) (a : SpecAxes)
-    (hok : stftAxes len t0 step w h = .ok a) (hfit : a.nperseg ≤ (len : Int))
+    (hok : stftAxes len t0 step w h = .ok a)
     (k : Nat) (hk : k < a.time.coords.length) :
     a.time.coords[k] = t0 + (k : Rat) * a.time.step := by
-  obtain ⟨_, _, _, rfl⟩ := stftAxesGen_ok false len t0 step w h a hok
-  simp only at hfit
-  simp only [stftTimes_getElem, min_eq_left hfit, Bool.false_eq_true, if_false]
+  obtain ⟨_, _, _, rfl⟩ := stftAxes_ok len t0 step w h a hok
+  simp only [stftTimes_getElem]
   push_cast; field_simp
 
-/-- the frequency coordinates are exactly `k·step` for the advertised step `samplerate/nperseg` -/
+/-- the frequency coordinates are exactly `k·step` for the advertised step `samplerate/nperseg`
+    (every window length; `nperseg` is the clamped one), and there are `nperseg/2 + 1` of them -/
 theorem C15_stft_freq_truthful (len : Nat) (t0 step w h : Rat) (a : SpecAxes)
-    (hok : stftAxes len t0 step w h = .ok a) (hfit : a.nperseg ≤ (len : Int))
+    (hok : stftAxes len t0 step w h = .ok a)
     (k : Nat) (hk : k < a.freq.coords.length) :
     a.freq.coords[k] = (k : Rat) * a.freq.step ∧ a.freq.coords.length = (a.nperseg / 2 + 1).toNat := by
-  obtain ⟨_, _, _, rfl⟩ := stftAxesGen_ok false len t0 step w h a hok
-  simp only at hfit
-  simp only [stftFreqs_getElem, min_eq_left hfit, true_and]
+  obtain ⟨_, _, _, rfl⟩ := stftAxes_ok len t0 step w h a hok
+  simp only [stftFreqs_getElem, true_and]
   simp [stftFreqs]
 
-/-- the advertised (realised) hop differs from the requested hop by less than one sample period,
-    and `nperseg`, `noverlap` are the truncations the code computes -/
+/-- `nperseg` is the requested `int(w·samplerate)` clamped to the audio, `noverlap` the truncation the
+    code computes; whenever the requested window is no longer than the audio the advertised
+    (realised) hop differs from the requested hop by less than one sample period and `nperseg` is
+    the floor of `w·samplerate`.  (For a longer window scipy's hop is `len − noverlap`: the axis
+    still tells the truth — `C15_stft_step_truthful` — but the request cannot be honoured.) -/
 theorem C15_stft_hop_within_one_sample (len : Nat) (t0 step w h : Rat) (a : SpecAxes)
     (hok : stftAxes len t0 step w h = .ok a) (hstep : 0 < step) (hh : h ≤ w) :
-    |a.time.step - h| < step ∧
-    (a.nperseg : Rat) ≤ w / step ∧ w / step < (a.nperseg : Rat) + 1 ∧
-    (a.noverlap : Rat) ≤ (w - h) / step ∧ (w - h) / step < (a.noverlap : Rat) + 1 := by
-  obtain ⟨_, hn1, _, rfl⟩ := stftAxesGen_ok false len t0 step w h a hok
-  simp only [Bool.false_eq_true, if_false]
+    a.nperseg = min (stftNperseg step w) (len : Int) ∧ a.nperseg ≤ (len : Int) ∧
+    (a.nperseg : Rat) ≤ w / step ∧
+    (a.noverlap : Rat) ≤ (w - h) / step ∧ (w - h) / step < (a.noverlap : Rat) + 1 ∧
+    (stftNperseg step w ≤ (len : Int) → |a.time.step - h| < step ∧ w / step < (a.nperseg : Rat) + 1) := by
+  obtain ⟨_, hn1, _, rfl⟩ := stftAxes_ok len t0 step w h a hok
+  simp only
+  have hreq1 : 1 ≤ stftNperseg step w := by omega
   have hw0 : 0 ≤ w * (1 / step) := by
     by_contra hneg
     have hlt : w * (1 / step) < 0 := lt_of_not_ge hneg
     have := (truncZ_near (w * (1 / step))).2
     have h1 : ((stftNperseg step w : Int) : Rat) < 1 := by unfold stftNperseg; linarith
-    have : (1 : Rat) ≤ (stftNperseg step w : Rat) := by exact_mod_cast hn1
+    have : (1 : Rat) ≤ (stftNperseg step w : Rat) := by exact_mod_cast hreq1
     linarith
   have hwh0 : 0 ≤ (w - h) * (1 / step) := mul_nonneg (by linarith) (one_div_pos.mpr hstep).le
   have b1 := truncZ_le_self_of_nonneg _ hw0
   have b2 := truncZ_le_self_of_nonneg _ hwh0
   have e1 : w * (1 / step) = w / step := by ring
   have e2 : (w - h) * (1 / step) = (w - h) / step := by ring
-  unfold stftNperseg stftNoverlap
-  rw [e1] at b1 ⊢; rw [e2] at b2 ⊢
-  refine ⟨?_, b1.1, b1.2, b2.1, b2.2⟩
+  have hminle : ((min (stftNperseg step w) (len : Int) : Int) : Rat) ≤ (stftNperseg step w : Rat) := by
+    exact_mod_cast min_le_left _ _
+  unfold stftNperseg stftNoverlap at *
+  rw [e1] at b1 hminle ⊢; rw [e2] at b2 ⊢
+  refine ⟨trivial, min_le_right _ _, le_trans hminle b1.1, b2.1, b2.2, fun hfit => ?_⟩
+  rw [min_eq_left hfit]
+  refine ⟨?_, b1.2⟩
   have hd : (((truncZ (w / step) - truncZ ((w - h) / step) : Int) : Rat)) / (1 / step) - h
       = (((truncZ (w / step) : Rat) - w / step) - ((truncZ ((w - h) / step) : Rat) - (w - h) / step)) * step := by
     push_cast; field_simp; ring
@@ -379,24 +388,21 @@ theorem C15_axis_ok_resample (n : Nat) (t0 t1 step : Rat) (target : Nat) (a : Ax
     have e : (i : Rat) * (1 / (target : Rat)) = (i : Rat) / (target : Rat) := by ring
     rw [e]; exact this
 
-/-- … and (repaired code) of both axes of every spectrogram whose window fits the audio -/
+/-- … and (repaired code) of both axes of every spectrogram, whatever the window length -/
 theorem C15_axis_ok_stft (len : Nat) (t0 step w h : Rat) (a : SpecAxes)
-    (hok : stftAxes len t0 step w h = .ok a) (hstep : 0 < step) (hfit : a.nperseg ≤ (len : Int)) :
+    (hok : stftAxes len t0 step w h = .ok a) (hstep : 0 < step) :
     axisOk t0 a.time = true ∧ axisOk 0 a.freq = true := by
-  have ht := C15_stft_step_truthful len t0 step w h a hok hfit
-  have hf := C15_stft_freq_truthful len t0 step w h a hok hfit
-  obtain ⟨_, hn1, hov, ha⟩ := stftAxesGen_ok false len t0 step w h a hok
-  have hnp : a.nperseg = stftNperseg step w := by rw [ha]
-  rw [hnp] at hfit
-  rw [min_eq_left hfit] at hov
+  have ht := C15_stft_step_truthful len t0 step w h a hok
+  have hf := C15_stft_freq_truthful len t0 step w h a hok
+  obtain ⟨_, hn1, hov, ha⟩ := stftAxes_ok len t0 step w h a hok
   have hts : 0 < a.time.step := by
-    rw [ha]; simp only [Bool.false_eq_true, if_false]
+    rw [ha]; simp only
     apply div_pos _ (one_div_pos.mpr hstep)
-    exact_mod_cast (by omega : (0 : Int) < stftNperseg step w - stftNoverlap step w h)
+    exact_mod_cast (by omega : (0 : Int) < min (stftNperseg step w) (len : Int) - stftNoverlap step w h)
   have hfs : 0 < a.freq.step := by
     rw [ha]; simp only
     apply div_pos (one_div_pos.mpr hstep)
-    exact_mod_cast (by omega : (0 : Int) < stftNperseg step w)
+    exact_mod_cast (by omega : (0 : Int) < min (stftNperseg step w) (len : Int))
   constructor
   · rw [C15_monitor_meaning]
     refine ⟨fun i hi => ?_, fun h0 => ?_, fun i hi => ?_⟩
@@ -424,20 +430,20 @@ theorem C15_axes_increasing :
       (∀ i (h : i + 1 < a.coords.length), a.coords[i] < a.coords[i + 1]) ∧
       (∀ h : 0 < a.coords.length, a.coords[0] = t0)) ∧
     (∀ (len : Nat) (t0 step w h : Rat) (a : SpecAxes), stftAxes len t0 step w h = .ok a →
-      0 < step → a.nperseg ≤ (len : Int) →
+      0 < step →
       (∀ i (h : i + 1 < a.time.coords.length), a.time.coords[i] < a.time.coords[i + 1]) ∧
       (∀ h : 0 < a.time.coords.length, a.time.coords[0] = t0) ∧
       (∀ i (h : i + 1 < a.freq.coords.length), a.freq.coords[i] < a.freq.coords[i + 1]) ∧
       (∀ h : 0 < a.freq.coords.length, a.freq.coords[0] = 0)) := by
   refine ⟨fun file ch sr s e a h => ?_, fun file sr d a h => ?_, fun n t0 t1 step target a h hs hd => ?_,
-    fun len t0 step w h a hok hs hfit => ?_⟩
+    fun len t0 step w h a hok hs => ?_⟩
   · have := (C15_monitor_meaning _ _).mp (C15_axis_ok_clip file ch sr s e a h)
     exact ⟨this.1, this.2.1⟩
   · have := (C15_monitor_meaning _ _).mp (C15_axis_ok_recording file sr d a h)
     exact ⟨this.1, this.2.1⟩
   · have := (C15_monitor_meaning _ _).mp (C15_axis_ok_resample n t0 t1 step target a h hs hd)
     exact ⟨this.1, this.2.1⟩
-  · have := C15_axis_ok_stft len t0 step w h a hok hs hfit
+  · have := C15_axis_ok_stft len t0 step w h a hok hs
     have h1 := (C15_monitor_meaning _ _).mp this.1
     have h2 := (C15_monitor_meaning _ _).mp this.2
     exact ⟨h1.1, h1.2.1, h2.1, h2.2.1⟩
@@ -476,8 +482,42 @@ theorem C15_resample_factors (n : Nat) (t0 t1 step : Rat) (target : Nat) :
   rfl
 
 theorem C15_stft_factors (len : Nat) (t0 step w h : Rat) :
-    stftAxes len t0 step w h = stftOfPlan len (stftPlan step w h t0) := by
-  unfold stftAxes stftAxesGen stftOfPlan stftPlan stftNperseg stftNoverlap stftTimes stftFreqs
+    stftAxes len t0 step w h = stftOfPlan len (stftPlan step w h t0 len) := by
+  unfold stftAxes stftAxesGen stftClamp stftOfPlan stftPlan stftNperseg stftNoverlap stftTimes stftFreqs
+  simp only [Bool.false_eq_true, if_false, if_true]
+  by_cases h1 : len = 0
+  · simp only [h1, if_true]
+  by_cases h2 : min (truncZ (w * (1 / step))) (len : Int) < 1
+  · simp only [h1, h2, if_true, if_false]
+  by_cases h3 : truncZ ((w - h) * (1 / step)) ≥ min (min (truncZ (w * (1 / step))) (len : Int)) (len : Int)
+  · simp only [h1, h2, h3, if_true, if_false]
+  simp only [h1, h2, h3, if_false]
+  congr 3
+  · apply List.map_congr_left
+    intro k _
+    ring
+  · push_cast; ring
+
+/-- the plan as the symbolic trace states it (all quantities rational, the clamp as the comparison
+    `n < nperseg` Python's `min` makes) is the plan of the model, for every number of samples -/
+theorem C15_stft_plan_tuple (step w h t0 : Rat) (len : Nat) :
+    stftPlanTuple step w h t0 (len : Rat) = (stftPlan step w h t0 len).toTuple := by
+  unfold stftPlanTuple stftPlan StftPlan.toTuple
+  have hc : (((len : Nat) : Rat) < ((truncZ (w * (1 / step)) : Int) : Rat)) ↔ ((len : Int) < truncZ (w * (1 / step))) := by
+    rw [show ((len : Nat) : Rat) = (((len : Nat) : Int) : Rat) by push_cast; rfl]
+    exact Rat.intCast_lt_intCast
+  by_cases hlt : (len : Int) < truncZ (w * (1 / step))
+  · simp only [hc.mpr hlt, if_true, min_eq_right hlt.le]
+    push_cast; rfl
+  · have hnc : ¬ (((len : Nat) : Rat) < ((truncZ (w * (1 / step)) : Int) : Rat)) := fun hh => hlt (hc.mp hh)
+    simp only [hnc, if_false, min_eq_left (not_lt.mp hlt)]
+
+/-- pre-repair behaviour (before fix C15-3): the un-clamped code is the un-clamped plan followed by
+    scipy's part — the same library part, so the only difference to the code that exists is the
+    `nperseg` the advertised steps are computed from -/
+theorem C15_stft_unclamped_factors (len : Nat) (t0 step w h : Rat) :
+    stftAxesUnclamped len t0 step w h = stftOfPlan len (stftPlanUnclamped step w h t0) := by
+  unfold stftAxesUnclamped stftAxesGen stftClamp stftOfPlan stftPlanUnclamped stftNperseg stftNoverlap stftTimes stftFreqs
   simp only [Bool.false_eq_true, if_false]
   by_cases h1 : len = 0
   · simp only [h1, if_true]
@@ -577,38 +617,68 @@ theorem C15_resample_chain_untruthful :
 
 /-! ### a window longer than the audio -/
 
-/-- for a window longer than the audio scipy shrinks `nperseg` to the input length: the
-    coordinates are `k·fs/len` and `t0 + k·(len − noverlap)/fs`, whatever the code advertises -/
+/-- (repaired code, fix C15-3) for a requested window longer than the audio the window used is the
+    whole audio: `nperseg = len`, the coordinates are `k·fs/len` and `t0 + k·(len − noverlap)/fs`,
+    and the advertised steps are exactly those spacings, `fs/len` and `(len − noverlap)/fs` -/
 theorem C15_stft_long_window (len : Nat) (t0 step w h : Rat) (a : SpecAxes)
-    (hok : stftAxes len t0 step w h = .ok a) (hlong : (len : Int) < a.nperseg) :
+    (hok : stftAxes len t0 step w h = .ok a) (hlong : (len : Int) < stftNperseg step w) :
+    a.nperseg = (len : Int) ∧
+    (∀ k (hk : k < a.freq.coords.length), a.freq.coords[k] = (k : Rat) * (1 / step / (len : Rat))) ∧
+    (∀ k (hk : k < a.time.coords.length),
+        a.time.coords[k] = t0 + (k : Rat) * ((((len : Int) - a.noverlap : Int) : Rat) * step)) ∧
+    a.freq.step = 1 / step / (len : Rat) ∧
+    a.time.step = (((len : Int) - a.noverlap : Int) : Rat) * step := by
+  obtain ⟨_, _, _, rfl⟩ := stftAxes_ok len t0 step w h a hok
+  have hmin : min (stftNperseg step w) (len : Int) = (len : Int) := min_eq_right hlong.le
+  simp only [hmin]
+  refine ⟨trivial, fun k hk => ?_, fun k hk => ?_, ?_, ?_⟩
+  · rw [stftFreqs_getElem]; push_cast; rfl
+  · rw [stftTimes_getElem]
+  · push_cast; rfl
+  · field_simp
+
+/-- pre-repair behaviour (the code before fix C15-3, `stftAxesUnclamped`): scipy shrinks `nperseg`
+    to the input length, so the coordinates are `k·fs/len` and `t0 + k·(len − noverlap)/fs`, while
+    both advertised steps refer to the *requested* `nperseg` -/
+theorem C15_stft_unclamped_long_window (len : Nat) (t0 step w h : Rat) (a : SpecAxes)
+    (hok : stftAxesUnclamped len t0 step w h = .ok a) (hlong : (len : Int) < a.nperseg) :
+    a.nperseg = stftNperseg step w ∧
     (∀ k (hk : k < a.freq.coords.length), a.freq.coords[k] = (k : Rat) * (1 / step / (len : Rat))) ∧
     (∀ k (hk : k < a.time.coords.length),
         a.time.coords[k] = t0 + (k : Rat) * ((((len : Int) - a.noverlap : Int) : Rat) * step)) ∧
     a.freq.step = 1 / step / (a.nperseg : Rat) ∧
     a.time.step = ((a.nperseg - a.noverlap : Int) : Rat) * step := by
-  obtain ⟨_, _, _, rfl⟩ := stftAxesGen_ok false len t0 step w h a hok
-  simp only at hlong
+  obtain ⟨_, _, _, rfl⟩ := stftAxesGen_ok false false len t0 step w h a hok
+  simp only [stftClamp, Bool.false_eq_true, if_false] at hlong ⊢
   have hmin : min (stftNperseg step w) (len : Int) = (len : Int) := min_eq_right hlong.le
-  simp only [hmin, Bool.false_eq_true, if_false]
-  refine ⟨fun k hk => ?_, fun k hk => ?_, ?_, ?_⟩
+  simp only [hmin]
+  refine ⟨trivial, fun k hk => ?_, fun k hk => ?_, ?_, ?_⟩
   · rw [stftFreqs_getElem]; push_cast; rfl
   · rw [stftTimes_getElem]
   · first | rfl | trivial
   · field_simp
 
-/-- (known finding C15-3) 50 samples at 8192 Hz, window of 64 and hop of 32 samples: scipy uses a
-    window of 50 samples, the frequency bins are 163.84 Hz apart but advertise 128 Hz (bin 25 is 7
-    advertised steps off), the segments are 18 samples apart but advertise 32: both monitored
-    statements are false -/
-theorem C15_stft_long_window_untruthful :
-    (stftAxes 50 0 (1 / 8192) (64 / 8192) (32 / 8192)).toOption.map
+/-- pre-repair behaviour (the defect repaired by fix C15-3, formerly known finding C15-3): on the
+    un-clamped code 50 samples at 8192 Hz with a window of 64 and a hop of 32 samples give frequency
+    bins 163.84 Hz apart advertising 128 Hz (bin 25 is 7 advertised steps off) and segments 18 samples
+    apart advertising 32: both monitored statements are false.  The code that exists advertises
+    163.84 Hz and 18 samples on the same input and both statements hold. -/
+theorem C15_stft_unclamped_long_window_untruthful :
+    ((stftAxesUnclamped 50 0 (1 / 8192) (64 / 8192) (32 / 8192)).toOption.map
         (fun a => (a.nperseg, a.noverlap, a.freq.coords.length)) = some (64, 32, 26) ∧
-    (stftAxes 50 0 (1 / 8192) (64 / 8192) (32 / 8192)).toOption.map
+     (stftAxesUnclamped 50 0 (1 / 8192) (64 / 8192) (32 / 8192)).toOption.map
         (fun a => (a.freq.step, a.freq.coords[1]?, axisOk 0 a.freq)) = some (128, some (4096 / 25), false) ∧
-    (stftAxes 50 0 (1 / 8192) (64 / 8192) (32 / 8192)).toOption.map
+     (stftAxesUnclamped 50 0 (1 / 8192) (64 / 8192) (32 / 8192)).toOption.map
         (fun a => (a.time.step, a.time.coords[1]?, axisOk 0 a.time)) =
-      some (1 / 256, some (9 / 4096), false) := by
-  refine ⟨?_, ?_, ?_⟩ <;> decide +kernel
+       some (1 / 256, some (9 / 4096), false)) ∧
+    ((stftAxes 50 0 (1 / 8192) (64 / 8192) (32 / 8192)).toOption.map
+        (fun a => (a.nperseg, a.noverlap, a.freq.coords.length)) = some (50, 32, 26) ∧
+     (stftAxes 50 0 (1 / 8192) (64 / 8192) (32 / 8192)).toOption.map
+        (fun a => (a.freq.step, a.freq.coords[1]?, axisOk 0 a.freq)) = some (4096 / 25, some (4096 / 25), true) ∧
+     (stftAxes 50 0 (1 / 8192) (64 / 8192) (32 / 8192)).toOption.map
+        (fun a => (a.time.step, a.time.coords[1]?, axisOk 0 a.time)) =
+       some (9 / 4096, some (9 / 4096), true)) := by
+  refine ⟨⟨?_, ?_, ?_⟩, ?_, ?_, ?_⟩ <;> decide +kernel
 
 /-! ### further consequences, non-vacuity -/
 
@@ -691,7 +761,25 @@ example : (clipPlan 4 (5 / 8) (17 / 8)).toTuple = (2, 6, 1 / 2, 1 / 4, 6, 1 / 4)
 example : (recordingPlan 4 (3 / 2 + 1 / 10)).toTuple = (0, 1 / 4, 6, 1 / 4) := by decide +kernel
 example : (rangePlan (1 / 2) (1 / 2) (1 / 4)).toTuple = (1 / 2, 1 / 4, 0, 1 / 4) := by decide +kernel
 example : resamplePlanTuple 100 (1 / 8192) 1355 = (16, 1 / 1355) := by decide +kernel
-example : (stftPlan (1 / 8) (17 / 16) (13 / 32) 2).toTuple = (8, 8, 5, 1, 2, 3 / 8) := by decide +kernel
+example : (stftPlan (1 / 8) (17 / 16) (13 / 32) 2 32).toTuple = (8, 8, 5, 1, 2, 3 / 8) := by decide +kernel
+-- a window longer than the audio (50 samples, window 64, hop 32): the plan hands scipy the clamped window and
+-- advertises its steps; the traced form of the plan agrees (hypothesis-free `C15_stft_plan_tuple`)
+example : (stftPlan (1 / 8192) (64 / 8192) (32 / 8192) 0 50).toTuple = (8192, 50, 32, 4096 / 25, 0, 9 / 4096) := by
+  decide +kernel
+example : stftPlanTuple (1 / 8192) (64 / 8192) (32 / 8192) 0 50 = (8192, 50, 32, 4096 / 25, 0, 9 / 4096) := by
+  decide +kernel
+example : (stftPlanUnclamped (1 / 8192) (64 / 8192) (32 / 8192) 0).toTuple = (8192, 64, 32, 128, 0, 1 / 256) := by
+  decide +kernel
+-- `C15_stft_long_window` is not vacuous: the clamped window, noverlap < len
+example : (stftAxes 50 (1 / 4) (1 / 8192) (51 / 8192) (25 / 8192)).toOption.map
+    (fun a => (a.nperseg, a.noverlap, a.time.step, a.time.coords.take 2, a.time.coords.length)) =
+    some (50, 26, 3 / 1024, [1 / 4, 259 / 1024], 4) := by decide +kernel
+example : (stftAxes 50 (1 / 4) (1 / 8192) (51 / 8192) (25 / 8192)).toOption.map
+    (fun a => (a.freq.step, a.freq.coords.length, axisOk (1 / 4) a.time, axisOk 0 a.freq)) =
+    some (4096 / 25, 26, true, true) := by decide +kernel
+-- … and scipy still rejects an overlap that is not shorter than the shortened window (unchanged by the repair)
+example : stftAxes 50 0 (1 / 8192) (64 / 8192) (10 / 8192) = .error .value := by decide +kernel
+example : stftAxesUnclamped 50 0 (1 / 8192) (64 / 8192) (10 / 8192) = .error .value := by decide +kernel
 -- a first stage that realises its advertised step exactly (96 samples at 48 kHz to 16 kHz: 32 points) can be
 -- resampled again truthfully
 example : (resampleAxis 32 0 (1 / 16000) (1 / 16000) 160000).toOption.map (fun a => (a.coords.length, axisOk 0 a)) =
